@@ -95,6 +95,11 @@ pub enum Item {
     Check,
     /// return `Pending` once (only meaningful in async bodies; a no-op in sync ones)
     Yield,
+    /// panic right here (a quiet, planned unwind); it travels up through every enclosing scope to the
+    /// nearest `Catch` (or to the top of the hop / hand-off thread it happens on, which catches it too)
+    Panic,
+    /// `catch_unwind` around `items` (in async code: around every poll of them); the thread is used on afterwards
+    Catch { items: Vec<Item> },
     /// run `items` on a fresh thread; `carry` = inside `Frame::current(rt.ctxt())` captured here;
     /// `fut` = through `Frame::in_future` + a block_on on that thread instead of `Frame::call`
     /// `after`: more work on the SAME fresh thread once the carried frame has been left (the thread is a
@@ -178,8 +183,9 @@ pub struct PNode {
     pub items: Vec<PItem>,
     /// check id taken as the first statement of the body
     pub pre: usize,
-    /// check id taken right after the span has ended
-    pub post: usize,
+    /// check id taken right after the span has ended (None: the span is left by a planned panic that
+    /// travels on through the caller, so that statement is never reached)
+    pub post: Option<usize>,
     /// synchronous hand-off forms: check taken on the far thread right after the span's frame was left …
     pub far_end: Option<usize>,
     /// … followed by this unrelated work on that thread
@@ -192,6 +198,8 @@ pub enum PItem {
     Event { id: usize },
     Check { id: usize },
     Yield,
+    Panic,
+    Catch { items: Vec<PItem>, post: usize },
     Hop { carry: bool, fut: bool, items: Vec<PItem>, pre: usize, end: usize, after: Vec<PItem>, post: usize },
     Join { carry: bool, migrate: bool, tasks: Vec<Vec<PItem>>, schedule: Vec<u8>, post: usize },
 }
@@ -203,6 +211,8 @@ pub struct SpanInfo {
     pub outer: Scope,
     pub depth: usize,
     pub form: Form,
+    /// the span is left by a planned panic (whether it then completes is C05's business: 0 or 1 events)
+    pub unwinds: bool,
 }
 
 #[derive(Debug, Default)]
@@ -218,6 +228,14 @@ pub struct Stats {
     pub joins_carry: usize,
     pub joins_migrating: usize,
     pub handoffs: usize,
+    pub exit_panic_sync_call: bool,
+    pub exit_panic_enter_guard: bool,
+    pub exit_panic_async: bool,
+    pub exit_panic_disabled_span: bool,
+    pub exit_panic_caught_on_far_thread: bool,
+    pub after_panic_sibling_span: bool,
+    pub after_panic_event_in_enclosing_span: bool,
+    pub after_panic_new_root_trace: bool,
     pub worker_root_span_after_carried_frame: bool,
     pub handoff_enabled_with_descendants: bool,
     pub handoff_disabled_with_descendants: bool,
@@ -272,6 +290,12 @@ struct Numberer {
     events: Vec<Scope>,
     checks: Vec<Scope>,
     stats: Stats,
+    /// control flow of planned panics: one is travelling up through the items being numbered …
+    unwinding: bool,
+    /// … and has left this many ENABLED spans so far
+    unwound_enabled: usize,
+    /// the thread whose items are being numbered has caught a panic that unwound through enabled spans
+    after_panic: bool,
 }
 
 #[derive(Clone, Copy)]
@@ -288,13 +312,47 @@ impl Numberer {
         self.checks.len() - 1
     }
 
+    /// Items behind a point where a planned panic leaves the list never run: they are not numbered (and
+    /// not interpreted), so "exactly once" keeps holding for everything that is.
     fn items(&mut self, items: &[Item], w: Where) -> Vec<PItem> {
-        items.iter().map(|it| self.item(it, w)).collect()
+        let mut out = Vec::new();
+        for it in items {
+            out.push(self.item(it, w));
+            if self.unwinding {
+                break;
+            }
+        }
+        out
+    }
+
+    /// The unwind stops here; `goes_on`: the catching thread is the one whose items follow.
+    fn caught(&mut self) -> bool {
+        let through_spans = self.unwinding && self.unwound_enabled > 0;
+        self.unwinding = false;
+        self.unwound_enabled = 0;
+        through_spans
     }
 
     fn item(&mut self, it: &Item, w: Where) -> PItem {
         match it {
+            Item::Panic => {
+                self.unwinding = true;
+                self.unwound_enabled = 0;
+                PItem::Panic
+            }
+            Item::Catch { items } => {
+                let items = self.items(items, w);
+                if self.caught() {
+                    self.after_panic = true;
+                }
+                // "when a span ends the ambient ids revert": ending by unwinding included
+                let post = self.check(w.scope);
+                PItem::Catch { items, post }
+            }
             Item::Event => {
+                if self.after_panic && w.scope.span.is_some() {
+                    self.stats.after_panic_event_in_enclosing_span = true;
+                }
                 self.events.push(w.scope);
                 self.stats.events += 1;
                 if w.in_disabled {
@@ -308,7 +366,16 @@ impl Numberer {
                 let id = self.spans.len();
                 let depth = w.depth + 1;
                 self.stats.max_depth = self.stats.max_depth.max(depth);
-                self.spans.push(SpanInfo { enabled: n.enabled, outer: w.scope, depth, form: n.form });
+                self.spans.push(SpanInfo { enabled: n.enabled, outer: w.scope, depth, form: n.form, unwinds: false });
+                if self.after_panic {
+                    if w.scope.span.is_some() {
+                        self.stats.after_panic_sibling_span = true;
+                    } else if n.enabled && !w.scope.base {
+                        self.stats.after_panic_new_root_trace = true;
+                    }
+                }
+                // a hand-off body runs on other threads: "after a panic on this thread" does not carry over
+                let saved_after = n.form.is_handoff().then(|| std::mem::replace(&mut self.after_panic, false));
                 if n.form.is_async() {
                     self.stats.async_nodes += 1;
                     if !w.in_async {
@@ -327,6 +394,27 @@ impl Numberer {
                     &n.items,
                     Where { scope: inner, depth, in_async: n.form.is_async(), in_disabled: !n.enabled },
                 );
+                let mut far_thread_caught = false;
+                if self.unwinding {
+                    // a planned panic leaves this span
+                    self.spans[id].unwinds = true;
+                    match n.form {
+                        Form::ManualEnter | Form::HandoffEnterBack => self.stats.exit_panic_enter_guard = true,
+                        f if f.is_async() => self.stats.exit_panic_async = true,
+                        // everything that goes through `Frame::call` (attribute on a sync fn, `in_fn`, …)
+                        _ => self.stats.exit_panic_sync_call = true,
+                    }
+                    if n.enabled {
+                        self.unwound_enabled += 1;
+                    } else {
+                        self.stats.exit_panic_disabled_span = true;
+                    }
+                    if n.form.is_handoff() {
+                        // the far thread (or the task's own poll loop) catches it; the parent just goes on
+                        self.stats.exit_panic_caught_on_far_thread = true;
+                        far_thread_caught = self.caught();
+                    }
+                }
                 let enabled_below = self.spans[before..].iter().any(|s| s.enabled);
                 if !n.enabled && enabled_below {
                     self.stats.disabled_with_enabled_descendant = true;
@@ -348,7 +436,9 @@ impl Numberer {
                 let (far_end, after) = if n.form.is_sync_handoff() {
                     let far_end = self.check(nothing);
                     let first = self.spans.len();
+                    self.after_panic = far_thread_caught;
                     let after = self.items(&n.after, Where { scope: nothing, depth: 0, in_async: false, in_disabled: false });
+                    assert!(!self.unwinding, "a planned panic in `after` items is never caught (normaliser)");
                     let carried_ids = n.enabled || w.scope.span.is_some() || w.scope.base;
                     if carried_ids && self.spans[first..].iter().any(|s| s.enabled && s.depth == 1) {
                         self.stats.worker_root_span_after_carried_frame = true;
@@ -357,7 +447,10 @@ impl Numberer {
                 } else {
                     (None, Vec::new())
                 };
-                let post = self.check(w.scope);
+                if let Some(v) = saved_after {
+                    self.after_panic = v;
+                }
+                let post = if self.unwinding { None } else { Some(self.check(w.scope)) };
                 PItem::Span(PNode { id, form: n.form, enabled: n.enabled, mdl, items, pre, post, far_end, after })
             }
             Item::Hop { carry, fut, items, after } => {
@@ -371,11 +464,20 @@ impl Numberer {
                 }
                 let inner = if *carry { w.scope } else { Scope { span: None, base: false } };
                 let pre = self.check(inner);
+                let saved_after = std::mem::replace(&mut self.after_panic, false);
                 let items = self.items(items, Where { scope: inner, in_async: *fut, ..w });
+                // a planned panic in the body is caught at the top of the hop thread, which goes on
+                if self.unwinding {
+                    self.stats.exit_panic_caught_on_far_thread = true;
+                }
+                let far_thread_caught = self.caught();
                 let nothing = Scope { span: None, base: false };
                 let end = self.check(nothing);
                 let first = self.spans.len();
+                self.after_panic = far_thread_caught;
                 let after = self.items(after, Where { scope: nothing, depth: 0, in_async: false, in_disabled: false });
+                assert!(!self.unwinding, "a planned panic in `after` items is never caught (normaliser)");
+                self.after_panic = saved_after;
                 if *carry && (w.scope.span.is_some() || w.scope.base) && self.spans[first..].iter().any(|s| s.enabled && s.depth == 1) {
                     self.stats.worker_root_span_after_carried_frame = true;
                 }
@@ -395,7 +497,17 @@ impl Numberer {
                 if tasks.len() >= 2 && suspends >= 1 {
                     self.stats.join_interleavable = true;
                 }
-                let tasks = tasks.iter().map(|t| self.items(t, Where { in_async: true, ..w })).collect();
+                let saved_after = self.after_panic;
+                let tasks = tasks
+                    .iter()
+                    .map(|t| {
+                        self.after_panic = false;
+                        let t = self.items(t, Where { in_async: true, ..w });
+                        assert!(!self.unwinding, "a planned panic never leaves a join task (normaliser)");
+                        t
+                    })
+                    .collect();
+                self.after_panic = saved_after;
                 let post = self.check(w.scope);
                 PItem::Join { carry: *carry, migrate: *carry && *migrate, tasks, schedule: schedule.clone(), post }
             }
@@ -414,9 +526,10 @@ fn can_suspend(items: &[Item]) -> bool {
 }
 
 pub fn number(case: &Case) -> Prog {
-    let mut n = Numberer { spans: Vec::new(), events: Vec::new(), checks: Vec::new(), stats: Stats::default() };
+    let mut n = Numberer { spans: Vec::new(), events: Vec::new(), checks: Vec::new(), stats: Stats::default(), unwinding: false, unwound_enabled: 0, after_panic: false };
     let top = Scope { span: None, base: case.incoming.is_some() };
     let items = n.items(&case.items, Where { scope: top, depth: 0, in_async: false, in_disabled: false });
+    assert!(!n.unwinding, "a planned panic never reaches the top of the case (normaliser)");
     let final_check = n.check(Scope { span: None, base: false });
     Prog { items, spans: n.spans, events: n.events, checks: n.checks, final_check, stats: n.stats }
 }
